@@ -46,12 +46,16 @@ theorem oks_range_novisible_counterexample :
     oksNodes (R := Rat) (fun _ => 1) true 1 1 [⟨1, (none, some 0), (some 0, some 0)⟩] = none := by
   decide
 
-/-- **Identical poses score 1** (also with shared missing nodes, any stddev/scale). -/
-theorem oks_self (coco : Bool) (eps s : R) (nodes : List (Node R)) (hpg : ∀ n ∈ nodes, n.p = n.g)
+/-- **Identical poses score 1** (also with shared missing nodes, any stddev/scale).  `he hs hsd` are
+the code's domain and are not used by the proof: in a field `0/0 = 0`, so the model would also give 1
+at `sd = 0` or `eps + s = 0`, where the code computes `0/0 = NaN`; the hypotheses keep the statement
+from being true there for the wrong reason. -/
+theorem oks_self (coco : Bool) (eps s : R) (he : 0 < eps) (hs : 0 ≤ s) (nodes : List (Node R))
+    (hsd : ∀ n ∈ nodes, 0 < n.sd) (hpg : ∀ n ∈ nodes, n.p = n.g)
     (hn : nVis nodes ≠ 0) : oksNodes T.exp coco eps s nodes = some 1 := by
   rw [oksNodes_eq_some _ _ _ _ _ hn]
   have hsum : sumR (nodes.map (ks T.exp coco eps s)) = nVisR nodes := by
-    clear hn
+    clear hn hsd
     induction nodes with
     | nil => rfl
     | cons n t ih =>
@@ -71,8 +75,8 @@ theorem oks_self (coco : Bool) (eps s : R) (nodes : List (Node R)) (hpg : ∀ n 
 /-- **Keypoints missing in the ground truth are ignored**: two node lists with the same stddevs
 and ground truth whose predictions agree wherever the gt keypoint is visible have the same OKS
 (the prediction at a missing-gt node may be anything, including NaN). -/
-theorem oks_ignores_missing_gt (coco : Bool) (eps s : R) {l l' : List (Node R)}
-    (h : List.Forall₂ (fun a b => a.sd = b.sd ∧ a.g = b.g ∧ (isVis a.g = true → a.p = b.p)) l l') :
+theorem oks_ignores_missing_gt (coco : Bool) (eps s : R) (he : 0 < eps) (hs : 0 ≤ s) {l l' : List (Node R)}
+    (hsd : ∀ n ∈ l, 0 < n.sd) (h : List.Forall₂ (fun a b => a.sd = b.sd ∧ a.g = b.g ∧ (isVis a.g = true → a.p = b.p)) l l') :
     oksNodes T.exp coco eps s l = oksNodes T.exp coco eps s l' := by
   have h' : List.Forall₂ (fun a b => a.g = b.g ∧ ks T.exp coco eps s a = ks T.exp coco eps s b) l l' := by
     refine List.Forall₂.imp ?_ h
@@ -118,8 +122,8 @@ theorem forall₂_one (coco : Bool) (eps s : R) (l1 l2 : List (Node R)) (a b : N
 /-- **A keypoint missing in the prediction is a complete miss**: it contributes KS 0 — the
 infimum of the KS of any located prediction — so the OKS is the sum over the *other* nodes divided
 by the visible-gt count, and no placement of that keypoint can score lower. -/
-theorem oks_missing_pred_is_miss (coco : Bool) (eps s : R) (l1 l2 : List (Node R)) (sd : R) (g p p' : Pt R)
-    (hp : vis p = none) :
+theorem oks_missing_pred_is_miss (coco : Bool) (eps s : R) (he : 0 < eps) (hs : 0 ≤ s)
+    (l1 l2 : List (Node R)) (sd : R) (hsd : 0 < sd) (g p p' : Pt R) (hp : vis p = none) :
     ks T.exp coco eps s ⟨sd, g, p⟩ = 0 ∧
     (∀ v, oksNodes T.exp coco eps s (l1 ++ ⟨sd, g, p⟩ :: l2) = some v →
         v = (sumR (l1.map (ks T.exp coco eps s)) + sumR (l2.map (ks T.exp coco eps s))) /
@@ -153,7 +157,8 @@ theorem oks_antitone (coco : Bool) {eps s : R} (he : 0 < eps) (hs : 0 ≤ s) (l1
   linarith
 
 /-- **Translating both poses changes nothing** (for a given scale and for the bbox-area scale). -/
-theorem oks_translation_invariant (coco : Bool) (eps : R) (sds : List R) (scale : Option R)
+theorem oks_translation_invariant (coco : Bool) (eps : R) (he : 0 < eps) (sds : List R)
+    (hsd : ∀ sd ∈ sds, 0 < sd) (scale : Option R) (hsc : ∀ s, scale = some s → 0 ≤ s)
     (g p : List (Pt R)) (t : R × R) :
     oksPair T.exp coco eps sds scale (g.map (shiftPt t)) (p.map (shiftPt t)) =
       oksPair T.exp coco eps sds scale g p := by
@@ -190,16 +195,16 @@ theorem oks_perm_equivariant (coco : Bool) (eps : R) (sds : List R)
                 (prs'.map (fun p => oksPair T.exp coco eps sds g.1 g.2 p))) :=
   ⟨hg.map _, fun _ _ => hp.map _⟩
 
-/-- Full statement “`compute_oks` returns the `(n_gt, n_pr)` matrix for every `n_pr`” holds of the
-code only for `n_pr = 1` (F-C15b) … -/
-theorem oks_total_partial (coco : Bool) (eps : R) (sds : List R) (gts : List (Option R × List (Pt R)))
+/-- **Regression record** (tree before 8197f2d, F-C15b fixed; HEAD = `oksMatrix`, total): the old
+code returned the matrix only for `n_pr = 1` … -/
+theorem oks_beforeFix_partial (coco : Bool) (eps : R) (sds : List R) (gts : List (Option R × List (Pt R)))
     (prs : List (List (Pt R))) (h : prs.length = 1) :
-    oksMatrixAsIs T.exp coco eps sds gts prs = some (oksMatrix T.exp coco eps sds gts prs) := by
-  unfold oksMatrixAsIs; rw [if_pos h]
+    oksMatrixBeforeFix T.exp coco eps sds gts prs = some (oksMatrix T.exp coco eps sds gts prs) := by
+  unfold oksMatrixBeforeFix; rw [if_pos h]
 
-/-- … and fails on the pinned tree for two predictions (`IndexError`). -/
-theorem oks_total_asIs_counterexample :
-    oksMatrixAsIs (R := Rat) (fun _ => 1) true 1 [1] [(none, [(some 0, some 0)])]
+/-- … and raised `IndexError` for two predictions. -/
+theorem oks_beforeFix_counterexample :
+    oksMatrixBeforeFix (R := Rat) (fun _ => 1) true 1 [1] [(none, [(some 0, some 0)])]
       [[(some 0, some 0)], [(some 1, some 0)]] = none := rfl
 
 /-- hypotheses of the OKS theorems are satisfiable (a 2-node pose, one keypoint 1 px off) -/
@@ -243,12 +248,12 @@ theorem match_pairs_sound (oks : G → P → Option S) (score : P → S) (thr : 
   have := matchLoop_sound oks thr _ gts g p v h
   exact ⟨this.1, this.2.1, this.2.2.1, (sortDesc_perm score prs).mem_iff.mp this.2.2.2⟩
 
-/-- Full statement “every frame is matched without error” holds of the code only when the gt
-frame is non-empty or there is no prediction (F-C15). -/
-theorem match_total_partial (oks : G → P → Option S) (score : P → S) (thr : S) (gts : List G)
+/-- **Regression record** (tree before 6b9ee84, F-C15 fixed; HEAD = `matchInstances`, total): the old
+code matched a frame without error only when the gt frame was non-empty or there was no prediction. -/
+theorem match_beforeFix_partial (oks : G → P → Option S) (score : P → S) (thr : S) (gts : List G)
     (prs : List P) (h : gts ≠ [] ∨ prs = []) :
-    matchInstancesAsIs oks score thr gts prs = some (matchInstances oks score thr gts prs) := by
-  unfold matchInstancesAsIs
+    matchInstancesBeforeFix oks score thr gts prs = some (matchInstances oks score thr gts prs) := by
+  unfold matchInstancesBeforeFix
   cases gts with
   | nil =>
     cases prs with
@@ -256,9 +261,9 @@ theorem match_total_partial (oks : G → P → Option S) (score : P → S) (thr 
     | cons p ps => rcases h with h | h <;> simp at h
   | cons g gs => rfl
 
-/-- … and is false on the pinned tree otherwise: no gt, one prediction ⇒ `ValueError`. -/
-theorem match_total_asIs_counterexample :
-    matchInstancesAsIs (R := Rat) (G := Nat) (P := Nat) (fun _ _ => some 1) (fun _ => 1) 0 [] [0] = none := rfl
+/-- … and raised `ValueError` for no gt and one prediction. -/
+theorem match_beforeFix_counterexample :
+    matchInstancesBeforeFix (R := Rat) (G := Nat) (P := Nat) (fun _ _ => some 1) (fun _ => 1) 0 [] [0] = none := rfl
 
 example : matchInstances (R := Rat) (fun (g p : Nat) => if g = p then some 1 else some (1/4)) (fun _ => 1) 0
     [0, 1] [1, 0, 2] = ([(1, 1, 1), (0, 0, 1)], []) := by decide +kernel
@@ -423,5 +428,191 @@ theorem match_nan_row_is_false_negative {S : Type} [LT S] [DecidableLT S] {G P :
   · obtain ⟨x, hx, rfl⟩ := List.mem_map.mp h
     exact absurd rfl (hnot x hx)
   · exact h
+
+/-! ## the level the code exposes: `compute_oks` entries, default `scale=None` included -/
+
+/-- a bounding-box area is never negative -/
+theorem area_nonneg (g : List (Pt R)) (s : R) (h : area g = some s) : 0 ≤ s := by
+  unfold area at h
+  split at h
+  · rename_i x0 x1 y0 y1 h1 h2 h3 h4
+    have := nanFold_min_le_max _ _ _ h1 h2
+    have := nanFold_min_le_max _ _ _ h3 h4
+    cases h
+    exact mul_nonneg (by linarith) (by linarith)
+  · cases h
+
+theorem mkNodes_sd_pos : ∀ (sds : List R) (g p : List (Pt R)), (∀ sd ∈ sds, 0 < sd) →
+    ∀ n ∈ mkNodes sds g p, 0 < n.sd
+  | [], _, _, _, n, hn => by simp [mkNodes] at hn
+  | _ :: _, [], _, _, n, hn => by simp [mkNodes] at hn
+  | _ :: _, _ :: _, [], _, n, hn => by simp [mkNodes] at hn
+  | sd :: sds, g :: gs, p :: ps, h, n, hn => by
+    simp only [mkNodes, List.mem_cons] at hn
+    rcases hn with rfl | hn
+    · exact h sd List.mem_cons_self
+    · exact mkNodes_sd_pos sds gs ps (fun x hx => h x (List.mem_cons_of_mem _ hx)) n hn
+
+/-- **Range at the `compute_oks` entry level**: any value the function returns (given scale ≥ 0, or
+the default bbox-area scale) lies in `[0, 1]`. -/
+theorem oksPair_range (coco : Bool) {eps : R} (he : 0 < eps) (sds : List R) (hsd : ∀ sd ∈ sds, 0 < sd)
+    (scale : Option R) (hsc : ∀ s, scale = some s → 0 ≤ s) (g p : List (Pt R)) (v : R)
+    (h : oksPair T.exp coco eps sds scale g p = some v) : 0 ≤ v ∧ v ≤ 1 := by
+  unfold oksPair at h
+  cases hs : scaleOf scale g with
+  | none => rw [hs] at h; cases h
+  | some s =>
+    rw [hs] at h
+    have hs0 : 0 ≤ s := by
+      cases scale with
+      | none => exact area_nonneg g s hs
+      | some s' => simp only [scaleOf] at hs; exact hsc s' rfl |> (Option.some.inj hs ▸ ·)
+    exact oks_range T coco he hs0 _ (mkNodes_sd_pos sds g p hsd) v h
+
+/-- … hence every non-NaN entry of the matrix `compute_oks` returns. -/
+theorem oksMatrix_range (coco : Bool) {eps : R} (he : 0 < eps) (sds : List R) (hsd : ∀ sd ∈ sds, 0 < sd)
+    (gts : List (Option R × List (Pt R))) (hsc : ∀ g ∈ gts, ∀ s, g.1 = some s → 0 ≤ s)
+    (prs : List (List (Pt R))) (row : List (Option R)) (hrow : row ∈ oksMatrix T.exp coco eps sds gts prs)
+    (v : R) (hv : some v ∈ row) : 0 ≤ v ∧ v ≤ 1 := by
+  simp only [oksMatrix, List.mem_map] at hrow
+  obtain ⟨g, hg, rfl⟩ := hrow
+  obtain ⟨p, _, hp⟩ := List.mem_map.mp hv
+  exact oksPair_range T coco he sds hsd g.1 (hsc g hg) g.2 p v hp
+
+theorem mkNodes_self : ∀ (sds : List R) (g : List (Pt R)), ∀ n ∈ mkNodes sds g g, n.p = n.g
+  | [], _, n, hn => by simp [mkNodes] at hn
+  | _ :: _, [], n, hn => by simp [mkNodes] at hn
+  | sd :: sds, g :: gs, n, hn => by
+    simp only [mkNodes, List.mem_cons] at hn
+    rcases hn with rfl | hn
+    · rfl
+    · exact mkNodes_self sds gs n hn
+
+theorem nVis_mkNodes : ∀ (sds : List R) (g p : List (Pt R)), g.length ≤ sds.length → g.length ≤ p.length →
+    nVis (mkNodes sds g p) = (g.filter isVis).length
+  | _, [], _, _, _ => by cases ‹List R› <;> simp [mkNodes, nVis]
+  | [], _ :: _, _, h, _ => by simp at h
+  | _ :: _, _ :: _, [], _, h => by simp at h
+  | sd :: sds, g :: gs, p :: ps, h1, h2 => by
+    have ih := nVis_mkNodes sds gs ps (by simpa using h1) (by simpa using h2)
+    simp only [mkNodes, nVis_cons, ih, List.filter_cons]
+    cases isVis g <;> simp <;> omega
+
+/-- **A pose compared with itself scores exactly 1** at the `compute_oks` level, default scale included
+(one stddev per node, ≥ 1 visible keypoint). -/
+theorem oksPair_self (coco : Bool) {eps : R} (he : 0 < eps) (sds : List R) (hsd : ∀ sd ∈ sds, 0 < sd)
+    (scale : Option R) (hsc : ∀ s, scale = some s → 0 ≤ s) (g : List (Pt R)) (hlen : g.length ≤ sds.length)
+    (hvis : (g.filter isVis).length ≠ 0) : oksPair T.exp coco eps sds scale g g = some 1 := by
+  have hn : nVis (mkNodes sds g g) ≠ 0 := by rw [nVis_mkNodes sds g g hlen (le_refl _)]; exact hvis
+  unfold oksPair
+  cases hs : scaleOf scale g with
+  | none =>
+    -- impossible: a visible keypoint makes both columns non-NaN
+    exfalso
+    cases scale with
+    | some s => simp [scaleOf] at hs
+    | none =>
+      simp only [scaleOf] at hs
+      obtain ⟨q, hq, hqv⟩ : ∃ q ∈ g, isVis q = true := by
+        cases hf : g.filter isVis with
+        | nil => rw [hf] at hvis; simp at hvis
+        | cons q t =>
+          have : q ∈ g.filter isVis := by rw [hf]; exact List.mem_cons_self
+          exact ⟨q, (List.mem_filter.mp this).1, (List.mem_filter.mp this).2⟩
+      have hx : ∀ f, ∃ v, nanFold f (g.map (·.1)) = some v := fun f =>
+        nanFold_some_of_mem f _ (by
+          obtain ⟨x, y⟩ := q
+          cases x <;> cases y <;> simp [isVis, vis] at hqv
+          exact ⟨_, List.mem_map.mpr ⟨_, hq, rfl⟩⟩)
+      have hy : ∀ f, ∃ v, nanFold f (g.map (·.2)) = some v := fun f =>
+        nanFold_some_of_mem f _ (by
+          obtain ⟨x, y⟩ := q
+          cases x <;> cases y <;> simp [isVis, vis] at hqv
+          exact ⟨_, List.mem_map.mpr ⟨_, hq, rfl⟩⟩)
+      obtain ⟨a, ha⟩ := hx minR; obtain ⟨b, hb⟩ := hx maxR
+      obtain ⟨c, hc⟩ := hy minR; obtain ⟨d, hd⟩ := hy maxR
+      simp [area, ha, hb, hc, hd] at hs
+  | some s =>
+    have hs0 : 0 ≤ s := by
+      cases scale with
+      | none => exact area_nonneg g s hs
+      | some s' => simp only [scaleOf] at hs; exact hsc s' rfl |> (Option.some.inj hs ▸ ·)
+    exact oks_self T coco eps s he hs0 _ (mkNodes_sd_pos sds g g hsd) (mkNodes_self sds g) hn
+
+/-! ## keypoints missing in the ground truth: their *data* (F-C15c) -/
+
+/-- Full clause “OKS ignores keypoints missing in the ground truth” includes: whatever is stored for a
+missing gt keypoint does not matter.  **Partial**: true when the scale is given.  (With the default
+`scale=None` it is false of the code: a half-NaN keypoint `(x, NaN)` is missing for KS but its `x` still
+enters `nanmin/nanmax` of the bounding box — see the counterexample.) -/
+theorem oks_ignores_missing_gt_coords_partial (exp : R → R) (coco : Bool) (eps s : R) (sds : List R)
+    {g g' : List (Pt R)} (p : List (Pt R))
+    (h : List.Forall₂ (fun a b => a = b ∨ (vis a = none ∧ vis b = none)) g g') :
+    oksPair exp coco eps sds (some s) g p = oksPair exp coco eps sds (some s) g' p := by
+  have hn : ∀ (sds : List R) (p : List (Pt R)),
+      List.Forall₂ (fun a b => isVis a.g = isVis b.g ∧ ks exp coco eps s a = ks exp coco eps s b)
+        (mkNodes sds g p) (mkNodes sds g' p) := by
+    induction h with
+    | nil => intro sds p; cases sds <;> exact List.Forall₂.nil
+    | cons hab _ ih =>
+      intro sds p
+      cases sds with
+      | nil => exact List.Forall₂.nil
+      | cons sd sds =>
+        cases p with
+        | nil => exact List.Forall₂.nil
+        | cons q ps =>
+          refine List.Forall₂.cons ?_ (ih sds ps)
+          rcases hab with rfl | ⟨h1, h2⟩
+          · exact ⟨rfl, rfl⟩
+          · simp [isVis, ks, h1, h2]
+  have key : ∀ {l l' : List (Node R)},
+      List.Forall₂ (fun a b => isVis a.g = isVis b.g ∧ ks exp coco eps s a = ks exp coco eps s b) l l' →
+      oksNodes exp coco eps s l = oksNodes exp coco eps s l' := by
+    intro l l' hl
+    have : nVis l = nVis l' ∧ nVisR l = nVisR l' ∧
+        sumR (l.map (ks exp coco eps s)) = sumR (l'.map (ks exp coco eps s)) := by
+      induction hl with
+      | nil => exact ⟨rfl, rfl, rfl⟩
+      | cons hab _ ih =>
+        refine ⟨by rw [nVis_cons, nVis_cons, hab.1, ih.1], ?_, ?_⟩
+        · show (if isVis _ then (1 : R) else 0) + nVisR _ = (if isVis _ then (1 : R) else 0) + nVisR _
+          rw [hab.1, ih.2.1]
+        · simp only [List.map_cons, sumR_cons, hab.2, ih.2.2]
+    unfold oksNodes
+    rw [this.1, this.2.1, this.2.2]
+  simp only [oksPair, scaleOf]
+  exact key (hn sds p)
+
+/-- … and false with the default scale: gt `[(0,0),(2,2),(x,NaN)]`, prediction `[(1,0),(2,2),(5,5)]`.  With
+`x` missing the bbox is 2×2, with `x = 10` it is 10×2: the same visible keypoints, a different OKS
+(`exp` instantiated with a strictly monotone stand-in). -/
+theorem oks_missing_gt_coord_counterexample :
+    oksPair (R := Rat) (fun x => 1 + x / 4) true (1/4) [1, 1, 1] none
+        [(some 0, some 0), (some 2, some 2), (none, none)] [(some 1, some 0), (some 2, some 2), (some 5, some 5)] ≠
+      oksPair (R := Rat) (fun x => 1 + x / 4) true (1/4) [1, 1, 1] none
+        [(some 0, some 0), (some 2, some 2), (some 10, none)] [(some 1, some 0), (some 2, some 2), (some 5, some 5)] := by
+  decide +kernel
+
+/-! ## the exact-argument evaluation used by the driver -/
+
+/-- the mixed-carrier evaluation (`oksr` driver op: exact part at `Rat`, `exp`/sum/division at `Float`)
+is `oksPair` when both carriers coincide -/
+theorem oksPairMixed_eq (exp : R → R) (coco : Bool) (eps : R) (sds : List R) (scale : Option R)
+    (g p : List (Pt R)) :
+    oksPairMixed (fun x => x) exp coco eps sds scale g p = oksPair exp coco eps sds scale g p := by
+  unfold oksPairMixed oksPair
+  cases scaleOf scale g with
+  | none => rfl
+  | some s =>
+    simp only [oksNodes]
+    split
+    · rfl
+    · congr 2
+      · congr 1
+        apply List.map_congr_left
+        intro n _
+        unfold ks ksArg
+        cases vis n.g <;> cases vis n.p <;> rfl
 
 end SleapVerif.C15
